@@ -80,7 +80,14 @@ func (c *WCase) dictCap() int {
 func runWriter(c *WCase, x *sim.Ctx) *WResult {
 	res := &WResult{CloseIdx: -1}
 	sink := simio.NewSink(c.Sink)
+	sink.OnCall = x.Yield
 	res.Sink = sink
+	yield := func() {
+		if x.Yield != nil {
+			x.Yield()
+		}
+	}
+	yield()
 	data := c.Payload.Bytes()
 	var w writerAPI
 	x.Ev("new %s sinkplan=%+v", c.Format, c.Sink)
@@ -122,6 +129,7 @@ func runWriter(c *WCase, x *sim.Ctx) *WResult {
 	closed := false
 	for _, op := range c.Ops {
 		cr := CallRes{Op: op, SinkBefore: sink.Calls}
+		yield()
 		switch op.K {
 		case "w":
 			var p []byte
